@@ -119,6 +119,7 @@ type l4Case struct {
 	Calls       []string `json:"calls"`       // iter: next get getoutcome getniloutcome getinvalid close
 	CancelAt    int      `json:"cancelAt"`    // iter: cancel the context before this call index (-1 never)
 	PreDeadline bool     `json:"preDeadline"` // the preliminary run's done context is an expired deadline
+	CtxCause    bool     `json:"ctxCause"`    // the context is ended with an explicit cause
 	NullL       bool     `json:"nullL"`       // map destinations: the third column is NULL in every row
 	TxOpts      int      `json:"txOpts"`      // Begin with nil options, empty options, ReadOnly
 	ErrWrap     int      `json:"errWrap"`     // which sentinel the injected driver errors wrap (0 none)
@@ -393,6 +394,7 @@ func genL4(r *rng.R) *l4Case {
 	}
 	c.PreDeadline = r.Chance(1, 2)
 	c.NullL = r.Chance(1, 2)
+	c.CtxCause = r.Chance(1, 3)
 	return c
 }
 
@@ -589,6 +591,19 @@ func runL4Case(c *l4Case) (obs *l4Obs) {
 		ctx, cancel = context.WithDeadline(base, time.Now().Add(-time.Second))
 	default:
 		ctx, cancel = context.WithCancel(base)
+	}
+	if c.CtxCause && c.Ctx != "nil" {
+		// the same, ended with an explicit cause: the context's error is still ctx.Err()
+		switch c.Ctx {
+		case "deadline":
+			ctx, cancel = context.WithDeadlineCause(base, time.Now().Add(-time.Second), errors.New("budget used up"))
+		default:
+			cctx, ccancel := context.WithCancelCause(base)
+			ctx, cancel = cctx, func() { ccancel(errors.New("shutting down")) }
+			if c.Ctx == "cancelled-before" {
+				cancel()
+			}
+		}
 	}
 	defer cancel()
 
